@@ -64,15 +64,22 @@ Fixpoint mfill (c : mcfg) (pid : N) (pkt : list byte) (q : list msg) : list byte
       else (pkt, q)
   end.
 
-(* Step 2: what is handed to Write() for the packet buffer [pkt] *)
-Definition mwire (c : mcfg) (pid : N) (pkt : list byte) : list byte :=
+(* Step 2: what is handed to Write() for the packet buffer [pkt], and what the packet buffer holds
+   afterwards: when the packet goes out uncompressed although a level is set, the level in the header
+   of _outputPacketBuffer itself is patched to 0 (and stays so if the transport then refuses the packet);
+   when it goes out compressed the header copy in front of the deflated bytes gets the level (re)written *)
+Definition mwire (c : mcfg) (pid : N) (pkt : list byte) : list byte * list byte :=
   if 0 <? mc_level c then
-    let patched := takeN (2 * c_C12_SIZEOF_UINT32) pkt ++ le32 pid ++ dropN PHS pkt in
+    let w2 := 2 * c_C12_SIZEOF_UINT32 in
+    let patched := takeN w2 pkt ++ le32 pid ++ dropN PHS pkt in
     match deflate (mc_level c) (dropN PHS pkt) with
-    | Some d => if PHS + lenN d <? lenN pkt then takeN PHS pkt ++ d else patched
-    | None => patched
+    | Some d =>
+        if PHS + lenN d <? lenN pkt
+        then (takeN w2 pkt ++ le32 (N.lor pid (N.shiftl (mc_level c) CL_SHIFT)) ++ d, pkt)
+        else (patched, patched)
+    | None => (patched, patched)
     end
-  else pkt.
+  else (pkt, pkt).
 
 Fixpoint mout_loop (fuel : nat) (c : mcfg) (maxBytes total budget : N) (st : mstate) : list packet * mstate :=
   match fuel with
@@ -81,8 +88,8 @@ Fixpoint mout_loop (fuel : nat) (c : mcfg) (maxBytes total budget : N) (st : mst
       if total <? maxBytes then
         let '(pkt, q) := mfill c (m_pid st) (m_pkt st) (m_q st) in
         if 0 <? lenN pkt then
-          let w := mwire c (m_pid st) pkt in
-          if budget =? 0 then ([], mkM (m_pid st) q pkt)       (* Write() returned 0: held for the next call *)
+          let '(w, pkt') := mwire c (m_pid st) pkt in
+          if budget =? 0 then ([], mkM (m_pid st) q pkt')      (* Write() returned 0: held for the next call *)
           else
             let '(ps, st') := mout_loop fuel' c maxBytes (total + lenN w) (budget - 1)
                                         (mkM ((m_pid st + 1) mod PID_MOD) q []) in
